@@ -2,6 +2,7 @@ package efx
 
 import (
 	"fmt"
+	"go/constant"
 	"go/token"
 	"go/types"
 	"strings"
@@ -38,12 +39,18 @@ type Analyzer struct {
 	memo   map[*ssa.Function]*Summary
 	inprog map[*ssa.Function]bool
 	hitRec map[*ssa.Function]bool
+	states map[*ssa.Function]*fnState
+	aliasMemo map[string][]Hazard
+	aliasBusy map[string]bool
+	// AliasSafeLeaves: callees assumed alias-safe (not analysed from source)
+	AliasSafeLeaves map[string]bool
 	cgNode func(fn *ssa.Function) *callgraph.Node
 	Stats  struct{ Funcs, Dyn, DynUnresolved, Contract, External int }
 }
 
 func NewAnalyzer(p *core.Prog) *Analyzer {
-	a := &Analyzer{P: p, memo: map[*ssa.Function]*Summary{}, inprog: map[*ssa.Function]bool{}, hitRec: map[*ssa.Function]bool{}}
+	a := &Analyzer{P: p, memo: map[*ssa.Function]*Summary{}, inprog: map[*ssa.Function]bool{}, hitRec: map[*ssa.Function]bool{},
+		states: map[*ssa.Function]*fnState{}, aliasMemo: map[string][]Hazard{}, aliasBusy: map[string]bool{}, AliasSafeLeaves: map[string]bool{}}
 	return a
 }
 
@@ -96,6 +103,8 @@ type fnState struct {
 	org     map[ssa.Value]PathSet
 	content map[Path]PathSet // region -> origins of references stored there
 	copies  map[Path]PathSet // region -> regions whose value (struct/array with references) was copied into it
+	dead    map[*ssa.BasicBlock]bool
+	deadEdge map[[2]*ssa.BasicBlock]bool
 	sum     *Summary
 	changed bool
 	tup     map[tupleKey]PathSet
@@ -225,7 +234,20 @@ func (st *fnState) storeRef(tgt Path, src PathSet) {
 }
 
 func (a *Analyzer) analyze(fn *ssa.Function) *Summary {
-	st := &fnState{a: a, fn: fn, org: map[ssa.Value]PathSet{}, content: map[Path]PathSet{}, copies: map[Path]PathSet{}}
+	sum, st := a.analyzeWith(fn, nil)
+	a.states[fn] = st
+	return sum
+}
+
+// analyzeWith analyses fn ignoring the blocks in dead (and phi edges from them).
+func (a *Analyzer) analyzeWith(fn *ssa.Function, dead map[*ssa.BasicBlock]bool, deadEdge ...map[[2]*ssa.BasicBlock]bool) (*Summary, *fnState) {
+	st := &fnState{a: a, fn: fn, org: map[ssa.Value]PathSet{}, content: map[Path]PathSet{}, copies: map[Path]PathSet{}, dead: dead}
+	if len(deadEdge) > 0 {
+		st.deadEdge = deadEdge[0]
+		if st.dead == nil {
+			st.dead = map[*ssa.BasicBlock]bool{}
+		}
+	}
 	st.sum = newSummary(fn, fn.Signature.Results().Len())
 	fresh := 0
 	freshOf := map[ssa.Instruction]Path{}
@@ -241,6 +263,9 @@ func (a *Analyzer) analyze(fn *ssa.Function) *Summary {
 	for iter := 0; iter < 50; iter++ {
 		st.changed = false
 		for _, b := range fn.Blocks {
+			if dead[b] {
+				continue
+			}
 			for _, in := range b.Instrs {
 				st.step(in, fp)
 			}
@@ -251,6 +276,9 @@ func (a *Analyzer) analyze(fn *ssa.Function) *Summary {
 	}
 	// summary extraction: returns
 	for _, b := range fn.Blocks {
+		if dead[b] {
+			continue
+		}
 		for _, in := range b.Instrs {
 			r, ok := in.(*ssa.Return)
 			if !ok {
@@ -300,7 +328,7 @@ func (a *Analyzer) analyze(fn *ssa.Function) *Summary {
 			}
 		}
 	}
-	return st.sum
+	return st.sum, st
 }
 
 // refsAt: origins of the reference held in region r: what was stored there,
@@ -312,7 +340,7 @@ func (st *fnState) refsAt(r Path) PathSet {
 		if !Under(r, t) {
 			continue
 		}
-		rel := Path("X" + strings.TrimSuffix(string(r), "…")[len(strings.TrimSuffix(string(t), "…")):])
+		rel := Path("X" + strings.Join(r.RelTo(t), ""))
 		for s := range srcs {
 			sr := rel.Rebase(s)
 			out[sr.Ext("*")] = true
@@ -355,12 +383,13 @@ func (st *fnState) step(in ssa.Instruction, fp func(ssa.Instruction) Path) {
 			}
 		}
 	case *ssa.IndexAddr:
+		sel := idxSel(x.Index)
 		for p := range st.get(x.X) {
-			st.add1(x, p.Ext("[]"))
+			st.add1(x, p.Ext(sel))
 		}
 	case *ssa.Index:
 		for p := range st.get(x.X) {
-			r := p.Ext("[]")
+			r := p.Ext(idxSel(x.Index))
 			st.read(r)
 			if isRefType(x.Type()) {
 				st.add(x, st.refsAt(r))
@@ -382,7 +411,10 @@ func (st *fnState) step(in ssa.Instruction, fp func(ssa.Instruction) Path) {
 	case *ssa.Slice:
 		st.add(x, st.get(x.X))
 	case *ssa.Phi:
-		for _, e := range x.Edges {
+		for i, e := range x.Edges {
+			if st.dead != nil && (st.dead[x.Block().Preds[i]] || st.deadEdge[[2]*ssa.BasicBlock{x.Block().Preds[i], x.Block()}]) {
+				continue
+			}
 			st.add(x, st.get(e))
 		}
 	case *ssa.ChangeType:
@@ -478,6 +510,16 @@ func (st *fnState) step(in ssa.Instruction, fp func(ssa.Instruction) Path) {
 	case ssa.CallInstruction:
 		st.call(x, fp)
 	}
+}
+
+// idxSel: "[k]" for a small constant index, "[]" otherwise.
+func idxSel(v ssa.Value) string {
+	if c, ok := v.(*ssa.Const); ok && c.Value != nil {
+		if k, ok := constant.Int64Val(constant.ToInt(c.Value)); ok && k >= 0 && k < 4096 {
+			return fmt.Sprintf("[%d]", k)
+		}
+	}
+	return "[]"
 }
 
 func elemOfLookup(x *ssa.Lookup) types.Type {
